@@ -226,6 +226,7 @@ def rule_handshake_premise(ctx):
     itself - R09.6, shared"""
     from . import rules_c09
     rules_c09.rule_selectors(ctx)
+    rules_c09.rule_successor_table(ctx)
 
 
 RULES = [rule_await_table, rule_late_100, rule_edges_usable, rule_parser_premise, rule_handshake_premise]
